@@ -771,3 +771,38 @@ func externallyCallable(fn *ssa.Function) bool {
 	}
 	return true
 }
+
+// addressedOnlyRule (C18): requests on disjoint resources do not meet in the
+// file system. Every path handed to a file-system call by the file server is
+// the sanitised name of the resource the request addresses (or the position
+// of a walked member below it) — never another name computed from it (a
+// fixed suffix, a sibling): that name is a resource of the same served tree,
+// which a concurrent request may be addressing. The derivation is the one of
+// C03.sinks.
+func addressedOnlyRule(c *Ctx, pr *PropertyRun, prop string) {
+	p := c.P
+	r := NewRule(prop, prop+".addressed-resource-only", "every path argument of every file-system call is the sanitised name of the addressed resource or of a walked member of it, not a name computed from it (shares the derivation of C03.sinks)")
+	pr.Rules = append(pr.Rules, r)
+	san := p.MustFunc(r, pkgWebdav, "(LocalFileSystem).localPath")
+	if san == nil {
+		return
+	}
+	sz := &sanitiser{c: c, san: san, memo: map[string]bool{}}
+	for _, fn := range p.ModFns {
+		if !inLib(fn) || len(fn.Blocks) == 0 {
+			continue
+		}
+		eachCall(fn, func(site ssa.CallInstruction) {
+			cc := site.Common()
+			for _, i := range fsPathArgs(cc) {
+				r.Role("fs-path-argument")
+				ok, why := sz.sanitised(cc.Args[i], site.Block(), fn, 0)
+				r.Ob(ok)
+				if !ok {
+					r.Violation(fmt.Sprintf("other-name|%s|%s#%d", fnKey(fn), calleeName(cc), i), p.instrPos(site), fmt.Sprintf("argument %d of %s in %s is not the name of the addressed resource (%s): it names another entry of the served tree, so two requests on different resources (X and the name computed from X) work on the same file and each sees or destroys the other's data", i, calleeName(cc), fnKey(fn), why), nil)
+				}
+			}
+		})
+	}
+	r.RequireRole("fs-path-argument")
+}
